@@ -52,7 +52,7 @@ func runC03(c *ev.Ctx) {
 	add := func(cc c03Case) {
 		cases = append(cases, ev.Case{Idx: len(cases), Desc: fmt.Sprintf("%s sub=%d %+v", cc.Kind, cc.Sub, cc.P), Data: cc})
 	}
-	nSynth := c.N(6000, 120000)
+	nSynth := c.N(8000, 1200000)
 	for i := 0; i < nSynth; i++ {
 		add(c03Case{Kind: "synth", P: vp8l.DefaultParams(), Sub: i})
 	}
@@ -86,7 +86,7 @@ func runC03(c *ev.Ctx) {
 			add(c03Case{Kind: "forced", P: p, Sub: cb*16 + mb})
 		}
 	}
-	nBig := c.N(60, 2500)
+	nBig := c.N(80, 20000)
 	for i := 0; i < nBig; i++ {
 		p := vp8l.DefaultParams()
 		p.MaxSide = 200
@@ -105,7 +105,7 @@ func runC03(c *ev.Ctx) {
 			add(c03Case{Kind: "big", P: p, Sub: 100000 + i})
 		}
 	}
-	nLw := c.N(500, 10000)
+	nLw := c.N(800, 100000)
 	for i := 0; i < nLw; i++ {
 		add(c03Case{Kind: "lwenc", Sub: i})
 	}
@@ -220,7 +220,15 @@ func c03One(c *ev.Ctx, cs ev.Case, feat *featAgg) {
 	}
 	c.Eval(1)
 	rep := func() any { return map[string]string{"file": b64(file), "sig": sig} }
-	dec, derr := decode(file)
+	dec, derr, hung := decodeTimed(file)
+	if hung {
+		c.Violate(cs, "hang", map[string]string{"kind": cc.Kind}, "webp.Decode did not return within 60 s and again within 120 s on a stream libwebp decodes ["+sig+"]", rep())
+		return
+	}
+	if derr == errAfterHang {
+		c.Inconclusive("skipped-after-confirmed-hang")
+		return
+	}
 	if derr != nil {
 		c.Violate(cs, "valid-stream-rejected", map[string]string{"kind": cc.Kind}, fmt.Sprintf("libwebp decodes %dx%d, webp.Decode: %v [%s]", w, h, derr, sig), rep())
 		return
